@@ -594,16 +594,32 @@ static void CodeSHARED(Word Index) {
             case TempFloat:
                 as_snprintf(s, sizeof(s), "%0.17g", t.Contents.Float);
                 break;
-            case TempString:
-                as_nonz_dynstr_to_c_str(s + 1, &t.Contents.str, sizeof(s) - 1);
-                if (ShareMode == 1) {
-                    *s = '\'';
-                    strmaxcat(s, "\'", STRINGSIZE);
-                } else {
-                    *s = '\"';
-                    strmaxcat(s, "\"", STRINGSIZE);
+            case TempString: {
+                /* the delimiter (and for C and AS the escape character) inside the
+                   string is written the way the reading language spells it */
+
+                char const   Delim = (ShareMode == 1) ? '\'' : '"';
+                size_t       Dest  = 0;
+                unsigned int Src;
+
+                s[Dest++] = Delim;
+                for (Src = 0; (Src < t.Contents.str.len) && (Dest + 4 < sizeof(s)); Src++) {
+                    char const Ch = t.Contents.str.p_str[Src];
+
+                    if (Ch == '\0') {
+                        break;
+                    }
+                    if (Ch == Delim) {
+                        s[Dest++] = (ShareMode == 1) ? Delim : '\\';
+                    } else if ((Ch == '\\') && (ShareMode != 1)) {
+                        s[Dest++] = '\\';
+                    }
+                    s[Dest++] = Ch;
                 }
+                s[Dest++] = Delim;
+                s[Dest]   = '\0';
                 break;
+            }
             default:
                 continue;
             }
